@@ -790,6 +790,86 @@ def check_force_sets(run, rng):
             os.chdir(top)
 
 
+def check_force_sets_zero_mode(run, rng):
+    """`--fz` (force_sets_zero_mode) with outputs that carry positions (vasprun.xml): first file = perfect supercell
+    (residual forces, subtracted from the others), then one file per displacement.  Pairs forces with the right
+    displacement / atoms, or refuses."""
+    from phonopy import Phonopy
+    from phonopy.cui.create_force_sets import create_FORCE_SETS
+    from phonopy.file_IO import parse_FORCE_SETS
+    from phonopy.interface.phonopy_yaml import PhonopyYaml
+
+    top = os.getcwd()
+    cell, meta = U.random_cell(rng, natom=3, layout="grouped", outside=False)  # grouped: VASP order = supercell order
+    smat = np.diag(rng.choice([[2, 1, 1], [1, 2, 1], [1, 1, 2]]))
+    with quiet():
+        ph = Phonopy(cell, supercell_matrix=smat, primitive_matrix="P", log_level=0)
+        ph.generate_displacements(distance=0.03)
+    sc = ph.supercell
+    n = len(sc)
+    nd = min(4, len(ph.dataset["first_atoms"]))
+    if nd < 2:
+        run.count("fz stream skipped: fewer than 2 displacements", section="oracle")
+        return
+    ph.dataset = {"natom": n, "first_atoms": ph.dataset["first_atoms"][:nd]}
+    dcells = ph.supercells_with_displacements[:nd]
+    fc = gen.pair_fc(sc, cutoff=4.0)
+    resid = np.array([[rng.randint(-16, 16) / 256.0 for _ in range(3)] for _ in range(n)])  # forces in the perfect supercell
+    model = [-np.einsum("ijab,jb->ia", fc, dc.positions - sc.positions) for dc in dcells]
+    rot = list(range(n))[1:] + [0]
+    # (kind, list of (positions, forces) for the displaced slots)
+    good = [(dc.scaled_positions, f + resid) for dc, f in zip(dcells, model)]
+    kinds = {
+        "ordered": good,
+        "two-displaced-files-swapped": [good[1], good[0]] + good[2:],
+        "displaced-file-given-twice": [good[0], good[0]] + good[2:],
+        "perfect-supercell-among-displaced": [(sc.scaled_positions, resid)] + good[1:],
+        "atoms-permuted-in-one-file": good[:-1] + [(good[-1][0][rot], good[-1][1][rot])],
+    }
+    for kind, files in kinds.items():
+        sub = os.path.join(top, "fz_" + kind)
+        os.makedirs(sub)
+        os.chdir(sub)
+        try:
+            with quiet():
+                ph.save("phonopy_disp.yaml")
+            phy = PhonopyYaml()
+            phy.read("phonopy_disp.yaml")
+            _vasprun("vasprun-000.xml", sc.cell, sc.scaled_positions, resid)
+            names = ["vasprun-000.xml"]
+            for i, (pos, f) in enumerate(files):
+                nm = "vasprun-%03d.xml" % (i + 1)
+                _vasprun(nm, sc.cell, pos, f)
+                names.append(nm)
+            case = dict(kind=kind, unitcell=_cell_dict(cell), supercell_matrix=smat.tolist(), n_displacements=nd, force_sets_zero_mode=True)
+            run.case(("fz", kind) + _cell_case(cell), nontrivial=kind != "ordered")
+            run.count("oracle-create_FORCE_SETS --fz", section="oracle")
+            refused = False
+            try:
+                with quiet():
+                    create_FORCE_SETS("vasp", names, phpy_yaml=phy, force_sets_zero_mode=True, disp_filename="phonopy_disp.yaml",
+                                      force_sets_filename="FORCE_SETS", log_level=0)
+            except RuntimeError as e:
+                if "match" not in str(e):
+                    raise
+                refused = True
+            if refused or not os.path.isfile("FORCE_SETS"):
+                run.count("--fz refused (%s)" % kind, section="oracle")
+                if kind == "ordered":
+                    run.broke("correspondence", "create_FORCE_SETS --fz refused correctly ordered vasprun.xml files", case)
+                continue
+            ds = parse_FORCE_SETS(filename="FORCE_SETS")
+            got = [np.array(d["forces"]) for d in ds["first_atoms"]]
+            bad = [i for i, (g, f) in enumerate(zip(got, model)) if g.shape != f.shape or np.abs(g - f).max() > 1e-8 * max(1, np.abs(f).max())]
+            if len(got) != nd or bad:
+                run.violation("create_FORCE_SETS", "fz-%s" % ("forces-wrong" if kind == "ordered" else kind + "-accepted"),
+                              "--fz with %s: accepted, and displacement %d of FORCE_SETS does not carry (forces of that displacement - forces of the perfect supercell) "
+                              "on the displaced supercell's atoms" % ("correctly ordered files" if kind == "ordered" else kind.replace("-", " "), (bad or [0])[0] + 1), case)
+        finally:
+            os.chdir(top)
+    run.sample(dict(kind="--fz stream", unitcell=_cell_dict(cell), supercell_matrix=smat.tolist(), cases=list(kinds)), limit=16)
+
+
 # --------------------------------------------------------------------------
 # create_FORCE_SETS' guards vs the ForcePairing model
 # --------------------------------------------------------------------------
@@ -920,16 +1000,35 @@ def check_force_collection(run, rng, reps=1):
     status = {}
     convention = {}
     TOL = 2e-8  # eV/Angstrom; FORCE_SETS carries 10 decimals in the calculator's force unit
-    for rep, layout in enumerate(["grouped", "interleaved"] * reps + ["left-handed"] * reps):
+    # LAMMPS orientations: supercell bases that are lower triangular (the LAMMPS convention) with positive diagonal, with
+    # NEGATIVE diagonal components (unit cell given that way, or negative DIM entries), the others are generic
+    lmp_kinds = ["lammps-oriented", "lammps-negative-diagonal-cell", "lammps-negative-dim"]
+    for rep, layout in enumerate(["grouped", "interleaved"] * reps + ["left-handed"] * reps + lmp_kinds * reps):
         lh = layout == "left-handed"
-        if lh:
+        lmp = layout if layout in lmp_kinds else None
+        if lh or lmp:
             layout = rng.choice(["grouped", "interleaved"])
         cell, meta = U.random_cell(rng, natom=3 if rep < 2 else rng.randint(3, 4), layout=layout, outside=False)
+        smat = np.diag(rng.choice([[2, 1, 1], [1, 2, 1], [1, 1, 2]]))
+        if lmp:
+            from phonopy.structure.atoms import PhonopyAtoms as _PA
+
+            low = np.linalg.cholesky(cell.cell @ cell.cell.T)
+            low = np.round(low * 8) / 8  # a = (ax 0 0), b = (bx by 0), c = (cx cy cz), entries k/8, positive diagonal
+            if lmp == "lammps-negative-diagonal-cell":
+                low = low @ np.diag([-1.0, -1.0, 1.0]) if rng.random() < 0.5 else low @ np.diag([-1.0, 1.0, -1.0])
+            elif lmp == "lammps-negative-dim":
+                d = [2, 1, 1]
+                rng.shuffle(d)
+                sg = rng.choice([[-1, -1, 1], [-1, 1, -1], [1, -1, -1]])
+                smat = np.diag([a * b for a, b in zip(d, sg)])
+            cell = _PA(cell=low, symbols=cell.symbols, scaled_positions=cell.scaled_positions)
+            layout = layout + "-" + lmp
+            run.count("force collection: %s" % lmp, section="oracle")
         if lh:
             cell = gen.relabelled_cell(cell, gen.UNIMODULAR[rng.choice(["swap12", "negate3", "invert"])])[0]
             layout = layout + "-left-handed"
             run.count("force collection on a left-handed supercell", section="oracle")
-        smat = np.diag(rng.choice([[2, 1, 1], [1, 2, 1], [1, 1, 2]]))
         with quiet():
             ph = Phonopy(cell, supercell_matrix=smat, primitive_matrix="P", log_level=0)
             ph.generate_displacements(distance=0.03)
@@ -952,6 +1051,8 @@ def check_force_collection(run, rng, reps=1):
         while rnd == sorted(rnd) or [rnd[k] for k in rnd] == list(range(n)):
             rng.shuffle(rnd)
         variants += [("lammps", "lines-3-cycle", cyc), ("lammps", "lines-shuffled", rnd)]
+        if lmp:
+            variants = [v for v in variants if v[0] == "lammps"]
         for c, vname, line_perm in variants:
             sub = os.path.join(top, "fcoll_%d_%s_%s%s" % (rep, layout, c, "_" + vname if vname else ""))
             os.makedirs(sub)
@@ -1345,6 +1446,7 @@ def main(run):
         rt.flush()
         run.cov["not_covered"] = not_covered
         check_force_sets(run, rng)
+        check_force_sets_zero_mode(run, rng)
         check_force_collection(run, rng, reps=6 if thorough else 1)
         check_force_pairing_model(run, rng, reps=6 if thorough else 1)
         check_unit_invariance(run, rng, names=["nacl_prim", "zincblende_prim", "cscl"] * 3 if thorough else None)
